@@ -500,6 +500,9 @@ class UTPM(Ring, RawAlgorithmsMixIn):
             raise NotImplementedError('should implement that')
 
         elif numpy.isscalar(rhs) or isinstance(rhs,numpy.ndarray):
+            if isinstance(rhs,numpy.ndarray) and numpy.may_share_memory(self.data, rhs):
+                # rhs is a view of the coefficients that are overwritten slice by slice below
+                rhs = rhs.copy()
             for d in range(D):
                 for p in range(P):
                     self.data[d,p,...] *= rhs
